@@ -864,23 +864,27 @@ var rtSymptoms = []symptom{
 		if !orderDiverges(f.text, f.streamIdx()) {
 			return 0, false
 		}
-		got, _ := readTextOrder(f.text)
-		if f.mode == "value" {
-			if len(got) < 1 {
-				return 0, false
+		for _, defAsCast := range []bool{false, true} {
+			got, _ := readTextOrder(f.text, defAsCast)
+			first, last := 0, f.idx
+			if f.mode == "value" {
+				first = f.idx
 			}
-			kind, _ := compare(c.Seq.Vals[f.idx], got[0])
-			return -1, kind == ""
-		}
-		if len(got) <= f.idx {
-			return 0, false
-		}
-		for i := 0; i <= f.idx; i++ {
-			if kind, _ := compare(c.Seq.Vals[i], got[i]); kind != "" {
-				return 0, false
+			if len(got) <= last-first {
+				continue
+			}
+			same := true
+			for i := first; i <= last; i++ {
+				if kind, _ := compare(c.Seq.Vals[i], got[i-first]); kind != "" {
+					same = false
+					break
+				}
+			}
+			if same {
+				return -1, true
 			}
 		}
-		return -1, true
+		return 0, false
 	}},
 	// Same class, for texts that readTextOrder cannot read because they also
 	// run into one of the other analyzer findings: `no such type name` although
